@@ -405,6 +405,9 @@ func cmdCheck(args []string) int {
 	// ---- verdict ----
 	fmt.Printf("[%s] tier=%s obligations=%d discharged=%d inconclusive=%d known=%d new-violations=%d paths=%d queries=%d wall=%.1fs\n",
 		pid, *tier, nObl, nDis, nInc, len(knownHit), len(newViol), paths, queries, wall)
+	for _, e := range uniq(errorsSeen, 6) {
+		fmt.Println("  inconclusive path:", e)
+	}
 	for _, id := range knownHit {
 		if confirmed[id] || violationsByObl[id] == nil {
 			fmt.Printf("KNOWN-FINDING: property=%s %s — %s\n", pid, id, isKnown(id).What)
